@@ -222,6 +222,10 @@ fn update<H: HashAlgorithm>(
     };
 
     let pending_ops = shared.take_root_pending();
+    #[cfg(nomt_verif)]
+    if !pending_ops.is_empty() {
+        crate::verif::probe("merkle.root_page_handoff");
+    }
     let mut root_page_updater = PageWalker::<H>::new(root, None);
 
     // Ensure the root page updater holds the root page. It is possible that this worker did not
